@@ -13,6 +13,9 @@ structure TwoBatches (inst : Instance) (w : Worker) (bs : List Batch) (bH bL : B
   ne : bH.rq ≠ bL.rq
   pH : hasP inst w bH.rq = true
   pL : hasP inst w bL.rq = true
+  /-- both classes ask for cpus only -/
+  cH : inst.need2 bH.rq = 0
+  cL : inst.need2 bL.rq = 0
 
 namespace TwoBatches
 variable {inst : Instance} {w : Worker} {bs : List Batch} {bH bL : Batch}
@@ -56,23 +59,25 @@ theorem rows_iff (inst : Instance) (bs : List Batch) {r : Row} :
       ∃ b ∈ bs, r ∈ batchCutRows inst bs b := by
   simp [milpOf, List.mem_flatMap]
 
-/-- the single resource row -/
+/-- the single resource row (cpu-only classes have no term in the row of the second kind, so there is none) -/
 theorem resourceRow (h : TwoBatches inst w bs bH bL) {r : Row} (hr : r ∈ resourceRows inst bs) :
     r.ge = false ∧ r.bound = w.free ∧
       ∀ z : Assign, r.lhs z = inst.need bH.rq * z (.P w.id bH.rq) + inst.need bL.rq * z (.P w.id bL.rq) := by
   rcases h.order with e | e
-  · simp only [resourceRows, e, h.workers, List.filterMap_cons, h.pH, h.pL, ↓reduceIte, List.filterMap_nil,
-      List.isEmpty_cons, Bool.false_eq_true, List.mem_singleton] at hr
+  · simp only [resourceRows, resourceRow1, resourceRow2, e, h.workers, List.filterMap_cons, h.pH, h.pL, h.cH, h.cL,
+      ↓reduceIte, List.filterMap_nil, List.isEmpty_cons, List.isEmpty_nil, Bool.false_eq_true, List.append_nil,
+      List.mem_singleton] at hr
     subst hr
     exact ⟨rfl, rfl, fun z => by simp [Row.lhs]⟩
-  · simp only [resourceRows, e, h.workers, List.filterMap_cons, h.pH, h.pL, ↓reduceIte, List.filterMap_nil,
-      List.isEmpty_cons, Bool.false_eq_true, List.mem_singleton] at hr
+  · simp only [resourceRows, resourceRow1, resourceRow2, e, h.workers, List.filterMap_cons, h.pH, h.pL, h.cH, h.cL,
+      ↓reduceIte, List.filterMap_nil, List.isEmpty_cons, List.isEmpty_nil, Bool.false_eq_true, List.append_nil,
+      List.mem_singleton] at hr
     subst hr
     exact ⟨rfl, rfl, fun z => by simp [Row.lhs]; omega⟩
 
 theorem resourceRow_mem (h : TwoBatches inst w bs bH bL) : ∃ r ∈ resourceRows inst bs, True := by
   rcases h.order with e | e <;>
-    simp [resourceRows, e, h.workers, h.pH, h.pL]
+    simp [resourceRows, resourceRow1, e, h.workers, h.pH, h.pL]
 
 theorem sizeRow (h : TwoBatches inst w bs bH bL) {r : Row} (hr : r ∈ sizeRows inst bs) :
     r.ge = false ∧
